@@ -52,7 +52,7 @@ def plan(tier):
     return {"cases": n, "params": {"stride": 7 if tier == "quick" else 1}, "timeout_s": 1800 if tier == "quick" else 14000,
             "min": {"faults_raised": 5_000, "scn_first_call": 8, "scn_rebuild": 8, "scn_cache_miss": 8, "scn_next_chain": 8,
                     "scn_invalid_method": 8, "scn_hook_raises": 8, "scn_recursion": 8, "invalid_method_positions": 30,
-                    "recursion_faults": 100, "hook_faults": 50}}
+                    "recursion_faults": 100, "hook_faults": 30}}
 
 
 def gen_case(rng, params, idx):
@@ -66,13 +66,21 @@ def gen_case(rng, params, idx):
         # make sure user predicates take part in resolution
         for m in spec["methods"][:2]:
             m["pos"][0]["t"] = rng.choice([["CC", "isk"], ["CC", "hasfly"], ["D", "int", "even"], ["D", "object", "truthy"],
-                                           ["U", ["CC", "evenname"], "int"]])
+                                           ["U", ["CC", "evenname"], "int"], "Hook", "Hook"])
     late = {"mid": 50, "pos": [{"n": f"a{j}", "t": rng.choice(names + ["int", "object"])} for j in range(spec["npos"])],
             "kw": [], "prio": rng.choice([0, 1]), "kind": rng.choice(["leaf", "next"])}
     vals = gen.values_for(hier)
     cg = gen.CallGen(spec, vals)
-    spec.update(scenario=scn, late=late, probes=[cg.call(rng, p_kw=0) for _ in range(8)],
-                op_calls=[cg.call(rng, p_kw=0) for _ in range(3)], stride=params["stride"], badkind=rng.choice(["names", "callnext", "nosource"]))
+    ops = [cg.call(rng, p_kw=0) for _ in range(3)]
+    if scn == "hook_raises" and rng.random() < 0.6:
+        # a plain-Python subclass hook (ABC.__subclasshook__) decides a method that matters for the faulted call
+        hier[0]["hooked"] = True
+        spec["methods"][0]["pos"][0]["t"] = "Hook"
+        for c in ops[:2]:
+            c["pos"][0] = ["i", hier[0]["name"]]
+    # the faulted call itself is among the later calls that must behave
+    spec.update(scenario=scn, late=late, probes=[cg.call(rng, p_kw=0) for _ in range(6)] + ops[:2],
+                op_calls=ops, stride=params["stride"], badkind=rng.choice(["names", "callnext", "nosource"]))
     return spec
 
 
@@ -297,8 +305,12 @@ def _invalid(spec, env, res, ref, behaviours):
 
 
 # ------------------------------------------------------------------------------------------- hook raises
-def _hook(spec, env, res, ref, behaviours):
+def _hook(spec, env0, res, ref, behaviours):
     for scn in ("first_call", "cache_miss"):
+        # a fresh environment (classes, ABCs) per run: ABCMeta caches subclass answers, so a hook that already
+        # answered for a class is never asked again for it
+        env = T.Env(spec["hier"])
+        env.predlog.keep = False
         prog, op = _setup(spec, env, scn)
         env.predlog.fault_at, env.predlog.fault_count = 10 ** 9, 0
         try:
@@ -309,6 +321,8 @@ def _hook(spec, env, res, ref, behaviours):
         env.predlog.fault_at = None
         prog.close()
         for k in range(1, total + 1):
+            env = T.Env(spec["hier"])
+            env.predlog.keep = False
             prog, op = _setup(spec, env, scn)
             env.predlog.fault_at, env.predlog.fault_count = k, 0
             raised = False
@@ -318,10 +332,13 @@ def _hook(spec, env, res, ref, behaviours):
                 raised = True
             except Exception:  # noqa: BLE001
                 pass
+            fired = env.predlog.fault_count >= k
             env.predlog.fault_at = None
-            if not raised:
+            if not fired:
                 prog.close()
                 continue
+            if not raised:
+                res.count("hook_faults_swallowed_by_library")   # evidence; the probes below decide
             res.ev()
             res.count("hook_faults")
             res.count("faults_raised")
